@@ -204,6 +204,11 @@ def reconstruct(jwk):
     probs = []
     kty = jwk.get("kty")
     val = {}
+    miss = [m for m in {"oct": ["k"], "RSA": ["n", "e"], "EC": ["crv", "x", "y"], "OKP": ["crv", "x"]}.get(kty, []) if m not in jwk]
+    if kty == "RSA" and "d" in jwk:
+        miss += [m for m in CRT if m not in jwk]
+    if miss:
+        return None, ["member(s) %s missing from the exported JWK %r" % (miss, sorted(jwk))]
     for m in VALUE_MEMBERS.get(kty, []):
         if m in jwk:
             o = strict_b64(jwk[m])
@@ -1246,6 +1251,11 @@ def run(ctx):
                     r5 = call(lambda: JWKRegistry.import_key(blob, kt, {"kid": "r"}))
                     if not same_numbers(r5, want) or r5[1].kid != "r":
                         ep_violation("reimport-material", "JWKRegistry.import_key(%s form, %r, parameters) of %s: %r" % (fname, kt, label, r5[1]), brep, kty=kt, form=fname + "-registry")
+            other_cls = KEYCLS[{"RSA": "EC", "EC": "OKP", "OKP": "RSA"}[kt]]
+            rw = call(lambda: other_cls.import_key(pem))
+            if rw[0] == "ok":
+                deviations.setdefault("pem-of-another-key-type-accepted", {"note": "%s.import_key(<%s PEM>) returns a key object (as_dict() then raises %s)" % (
+                    other_cls.__name__, kt, type(call(rw[1].as_dict)[1]).__name__)})
             # export with a password given as str / bytes
             pw_pairs = [(pwx, enc) for pwx in ("pässword", b"\x00\x01pw") for enc in ("PEM", "DER")]
             if ctx.quick and kt != "RSA":
